@@ -7,7 +7,7 @@
 (* printed as <<"MISMATCH", json>> and classified against the open known   *)
 (* findings.  TraceAccepted requires that every line was consumed.         *)
 (***************************************************************************)
-EXTENDS Order, KnownFindings, Json, SequencesExt, FiniteSetsExt, Dpkg
+EXTENDS Order, KnownFindings, Json, SequencesExt, FiniteSetsExt, Dpkg, MavenCV
 
 CONSTANTS TraceFile,     \* path of the NDJSON trace
           Prop,          \* property id being judged, e.g. "C01"
@@ -42,17 +42,26 @@ MatrixC01(ev) ==
       badsign == {p \in I \X I : M[p[1]][p[2]] \notin {-1, 0, 1}}
       parts == {ev.part[i] : i \in I}
       unexpl == UNION {Unexplained(M, {i \in I : ev.part[i] = q}) : q \in parts}
+      \* members an open finding declares irregular are set aside: the regular ones must be
+      \* explained by a rank on their own; what only fails with irregular members present is
+      \* classified by the finding's model (KnownFindings.tla)
+      irr == IF unexpl = {} THEN {} ELSE {i \in I : Irregular(OpenFindings, ev.eco, S2C(ev.texts[i]))}
+      unexplReg == IF irr = {} THEN unexpl
+                   ELSE UNION {Unexplained(M, {i \in I \ irr : ev.part[i] = q}) : q \in parts}
+      ikey == IF irr = {} THEN <<>> ELSE TLCEval([i \in I |-> IrrKey(ev.eco, S2C(ev.texts[i]))])
       rec(p, why) == [prop |-> "C01", eco |-> ev.eco, why |-> why, a |-> ev.texts[p[1]], b |-> ev.texts[p[2]],
-                      got |-> M[p[1]][p[2]], rev |-> M[p[2]][p[1]], known |-> ""]
-  IN {rec(p, "sign") : p \in badsign} \cup {rec(p, "rank") : p \in unexpl \ badsign}
-     \cup {[prop |-> "C01", eco |-> ev.eco, why |-> "panic", a |-> ev.panics[i], b |-> "", got |-> 0, rev |-> 0, known |-> ""]
+                      got |-> M[p[1]][p[2]], rev |-> M[p[2]][p[1]], model |-> 2, known |-> ""]
+  IN {rec(p, "sign") : p \in badsign} \cup {rec(p, "rank") : p \in unexplReg \ badsign}
+     \cup {[rec(p, "rank-irregular") EXCEPT !.model = IrrCmp(ev.eco, ikey[p[1]], ikey[p[2]])]
+             : p \in (unexpl \ unexplReg) \ badsign}
+     \cup {[prop |-> "C01", eco |-> ev.eco, why |-> "panic", a |-> ev.panics[i], b |-> "", got |-> 0, rev |-> 0, model |-> 2, known |-> ""]
              : i \in 1..Len(ev.panics)}
 
 (* Reference orders (C08-C14): the observed sign of every in-scope pair is the  *)
 (* sign the reference operator computes on the same two texts.                *)
-RefKey(prop, cs) == CASE prop = "C10" -> DKey(cs) [] prop = "C11" -> RKey(cs)
-RefScope(prop, cs) == CASE prop = "C10" -> DInScope(cs) [] prop = "C11" -> RInScope(cs)
-RefCmpKey(prop, x, y) == CASE prop = "C10" -> DCmpKey(x, y) [] prop = "C11" -> RCmpKey(x, y)
+RefKey(prop, cs) == CASE prop = "C10" -> DKey(cs) [] prop = "C11" -> RKey(cs) [] prop = "C12" -> MvKey(cs)
+RefScope(prop, cs) == CASE prop = "C10" -> DInScope(cs) [] prop = "C11" -> RInScope(cs) [] prop = "C12" -> MvInScope(cs)
+RefCmpKey(prop, x, y) == CASE prop = "C10" -> DCmpKey(x, y) [] prop = "C11" -> RCmpKey(x, y) [] prop = "C12" -> MvCmpKey(x, y)
 
 MatrixRef(ev) ==
   LET n   == ev.n
@@ -60,23 +69,26 @@ MatrixRef(ev) ==
       cs  == TLCEval([i \in 1..n |-> S2C(ev.texts[i])])
       I   == {i \in 1..n : RefScope(Prop, cs[i])}
       key == TLCEval([i \in I |-> RefKey(Prop, cs[i])])
-      bad == {p \in I \X I : RefCmpKey(Prop, key[p[1]], key[p[2]]) # M[p[1]][p[2]]}
-  IN IF PrintT(<<"INFO", ToJson([judged |-> Cardinality(I) * Cardinality(I), inscope |-> Cardinality(I)])>>) THEN
+      want == TLCEval([p \in I \X I |-> RefCmpKey(Prop, key[p[1]], key[p[2]])])
+      claimed == {p \in I \X I : want[p] # 2}          \* 2 = the reference leaves the pair unclaimed
+      bad == {p \in claimed : want[p] # M[p[1]][p[2]]}
+  IN IF PrintT(<<"INFO", ToJson([judged |-> Cardinality(claimed), inscope |-> Cardinality(I)])>>) THEN
      {[prop |-> Prop, eco |-> ev.eco, why |-> "ref", a |-> ev.texts[p[1]], b |-> ev.texts[p[2]],
-       got |-> M[p[1]][p[2]], want |-> RefCmpKey(Prop, key[p[1]], key[p[2]]), known |-> ""] : p \in bad}
+       got |-> M[p[1]][p[2]], want |-> want[p], known |-> ""] : p \in bad}
      ELSE {}
 
 (* Spec audit: the reference operator against answers of an executable         *)
 (* reference (dpkg, node-semver, packaging, Maven) or a published table.       *)
 (* A disagreement makes the *spec* suspect; it is never a verdict on the code. *)
+AuditCmpKey(prop, x, y) == IF prop = "C12" THEN MvListCmp(x.k7, y.k7, 1) ELSE RefCmpKey(prop, x, y)
 AuditRef(ev) ==
   LET cs  == TLCEval([i \in 1..Len(ev.texts) |-> S2C(ev.texts[i])])
       key == TLCEval([i \in 1..Len(ev.texts) |-> RefKey(Prop, cs[i])])
       bad == {q \in 1..Len(ev.pairs) :
-                RefCmpKey(Prop, key[ev.pairs[q][1]], key[ev.pairs[q][2]]) # ev.pairs[q][3]}
+                AuditCmpKey(Prop, key[ev.pairs[q][1]], key[ev.pairs[q][2]]) # ev.pairs[q][3]}
       oos == {i \in 1..Len(ev.texts) : ~RefScope(Prop, cs[i])}
   IN {[prop |-> Prop, why |-> "audit", a |-> ev.texts[ev.pairs[q][1]], b |-> ev.texts[ev.pairs[q][2]],
-       ref |-> ev.pairs[q][3], spec |-> RefCmpKey(Prop, key[ev.pairs[q][1]], key[ev.pairs[q][2]]), known |-> ""] : q \in bad}
+       ref |-> ev.pairs[q][3], spec |-> AuditCmpKey(Prop, key[ev.pairs[q][1]], key[ev.pairs[q][2]]), known |-> ""] : q \in bad}
      \cup {[prop |-> Prop, why |-> "audit-scope", a |-> ev.texts[i], b |-> "", ref |-> 0, spec |-> 0, known |-> ""] : i \in oos}
 
 Judge(ev) ==
